@@ -97,6 +97,7 @@ fn run_helper(n: usize, end: usize, out: &mut impl Write) {
     match end {
         3 => {
             // a by-value provided method: inside its default body and inside the required method's answer nothing lent so far is gone
+            let _ = u.make_ref(A(9_000_000));            // lent by the instance itself (the helpers' values live in the helpers)
             let r = u.via_own(7);
             if r != 7 { early.push(format!("during-by-value-delegation:[result {r}: 1000 x values dropped when the default body started + 1 x values dropped when the answer ran]")); }
         }
@@ -110,7 +111,7 @@ fn run_helper(n: usize, end: usize, out: &mut impl Write) {
         _ => drop(u),
     }
     let fin = take_drops();
-    writeln!(out, "helper n={} wrong={} early=[{}] dropped_at_teardown={}", n, wrong, early.join(";"), fin.split(',').filter(|x| !x.is_empty()).count()).unwrap();
+    writeln!(out, "helper n={} wrong={} early=[{}] dropped_at_teardown={}", n, wrong, early.join(";"), fin.split(',').filter(|x| !x.is_empty() && *x != "9000000").count()).unwrap();
 }
 
 /// a value configured with returns() for a borrowed return lives in the mock: it is dropped exactly once, when the last instance
